@@ -40,8 +40,12 @@ class Module:
         return source(file or self.file)
 
     # ---- spec-only text (spec fns, proof fns, View impls, broadcast uses). Never executable.
-    def spec(self, text, label=None):
-        self.chunks.append(Chunk(text, label or 'spec', 'spec'))
+    def spec(self, text, label=None, props=None):
+        if props:
+            # a block of proof fns (lemmas) that decides part of a property: failures inside it are reported under `label`
+            self.chunks.append(Chunk(text, label, 'lemma', FnSpec(label, props=props, mode='lemma', ensures='(proof fns; see the generated text)')))
+        else:
+            self.chunks.append(Chunk(text, label or 'spec', 'spec'))
         return self
 
     # ---- D4: stand-in for an item that only has to exist for rustc (never called from verified code); #[verifier::external]
@@ -236,7 +240,34 @@ class Module:
         self.chunks.append(Chunk(head + '\n', None, 'text'))
         tyname = _impl_type_name(it.header)
         for m in members:
-            if isinstance(m, tuple):
+            if isinstance(m, tuple) and m[0] == 'const_ensures':
+                # R11: `pub const NAME: T = EXPR;` -> `pub exec const NAME: T ensures <clause> { EXPR }` (Verus syntax for a const with a contract)
+                _, name, clause, props = m[:4]
+                hint = m[4] if len(m) > 4 else ''
+                ch = [c for c in it.children if c.kind == 'const' and c.name == name]
+                if len(ch) != 1:
+                    raise Undecided('%s: const %s not found in %s' % (self.name, name, it.header))
+                c = ch[0]
+                ed2 = Edits(sf, toks[c.attr_lo].start, toks[c.hi - 1].end)
+                generic_attr_edits(sf, c.attr_lo, c.hi, ed2, self.unit.log, self.name)
+                eq = None
+                k = c.kw
+                while k < c.hi:
+                    if toks[k].text in ('(', '[', '{', '<'):
+                        pass
+                    if toks[k].text == '=' :
+                        eq = k
+                        break
+                    k += 1
+                if eq is None or toks[c.hi - 1].text != ';':
+                    raise Undecided('%s: const %s has no initializer' % (self.name, name))
+                ed2.add(toks[c.kw].start, toks[c.kw].start, 'exec ')
+                ed2.add(toks[eq].start, toks[eq].end, 'ensures ' + clause + ' {' + ((' proof { ' + hint + ' }') if hint else ''))
+                ed2.add(toks[c.hi - 1].start, toks[c.hi - 1].end, ' }')
+                label = '%s::%s::%s' % (self.qual, tyname, name)
+                self.unit.log.rw('R11', label, 'const %s: .. = EXPR;' % name, 'exec const %s: .. ensures %s { EXPR }' % (name, clause))
+                self.chunks.append(Chunk(ed2.render() + '\n', label, 'fn', FnSpec(name, ensures=clause, props=props), src=sha(sf.span_text(c.attr_lo, c.hi))))
+            elif isinstance(m, tuple):
                 kind, name = m
                 ch = [c for c in it.children if c.kind == kind and c.name == name]
                 if len(ch) != 1:
